@@ -8,7 +8,7 @@ from jugverif import core
 
 LEVEL = 'proof'
 THEOREMS = ['Jug.C17.map_value', 'Jug.C17.map_index', 'Jug.C17.mapreduce_eq_fold', 'Jug.C17.reduce_eq_fold',
-            'Jug.C17.currymap_value', 'Jug.C17.each_element_mapped_once', 'Jug.C17.slice_value',
+            'Jug.C17.currymap_value', 'Jug.C17.each_element_mapped_once', 'Jug.C17.slice_value', 'Jug.C17.index_value',
             'Jug.C17.slice_indices_in_bounds', 'Jug.C17.defaults_in_domain']
 
 
@@ -178,7 +178,25 @@ def check(run):
                 run.fail('map-value', 'map value/items %r / %r differ from %r (n=%d step=%d)' % (real['value'], real['items'], ref, n, ms), {'kind': 'map', 'n': n, 'ms': ms, 'tg': tg})
             if sorted(real['calls']) != list(range(n)):
                 run.fail('map-mapped-once', 'mapper calls %r' % (real['calls'],), {'kind': 'map', 'n': n, 'ms': ms, 'tg': tg})
-            corr('map', {'op': 'map', 'n': n, 'ms': ms}, real, ['blocks', 'value', 'items'])
+            # every integer index from -n-2 to n+1 must behave as on the list (same element, or IndexError in the same cases)
+            ints = []
+            for pidx in range(-n - 2, n + 2):
+                try:
+                    exp_i = ref[pidx]
+                except IndexError:
+                    exp_i = None
+                try:
+                    got_i = value(m[pidx])
+                except IndexError:
+                    got_i = None
+                except Exception as e:
+                    got_i = 'EXC %s' % type(e).__name__
+                ints.append(got_i)
+                run.count('int_index_cases')
+                if got_i != exp_i:
+                    run.fail('map-int-index', 'value(map(f, range(%d), map_step=%d)[%d]) = %s, the list gives %s (None = IndexError)' % (n, ms, pidx, got_i, exp_i), {'kind': 'map-index', 'n': n, 'ms': ms, 'tg': tg, 'index': pidx})
+            real['int_items'] = ints
+            corr('map', {'op': 'map', 'n': n, 'ms': ms}, real, ['blocks', 'value', 'items', 'int_items'])
             if ms == 1:
                 continue    # a plain python list of tasks: slicing is the interpreter's
             # slices: exhaustive box for one map_step per n, sampled for the others
